@@ -160,6 +160,43 @@ def _ret_triple(fn, r):
     return None
 
 
+def _ret_triple_via_closure(fn, r):
+    """`return make(P)` where make is a local closure with one parameter whose body is `return {a, b, c}`: the three terms with the
+    parameter replaced by the argument"""
+    ch = fn.n(r)['ch']
+    if not ch:
+        return None
+    t = _strip_cast(fn.term(ch[0], inline=False))
+    if not (t[0] == 'call' and len(t) == 4 and isinstance(t[3], tuple) and t[3] and t[3][0] == 'local' and len(t[2]) == 1):
+        return None
+    d = fn.defs.get(t[3][2], {})
+    if not d.get('init'):
+        return None
+    ln = fn.n(d['init'])['l']
+    cands = [g for g in fn.unit.functions.values() if g.d.get('parent_fn') == fn.id and g.d.get('line') == ln and g.name == 'operator()' and len(g.params) == 1]
+    if len(cands) != 1:
+        return None
+    g = cands[0]
+    rets = [x for x in g.returns() if g.n(x)['ch']]
+    if len(rets) != 1:
+        return None
+    tri = _ret_triple(g, rets[0])
+    if not tri:
+        return None
+    arg = fn.term(fn.n(fn.strip(ch[0])).get('args', [None, None])[-1], inline=True) if fn.n(fn.strip(ch[0])).get('args') else None
+    if arg is None:
+        return None
+    pn = ('param', g.params[0]['name'])
+
+    def sub(x):
+        if isinstance(x, tuple):
+            if x == pn:
+                return arg
+            return tuple(sub(y) for y in x)
+        return x
+    return tuple(sub(g.term(x, inline=True)) for x in tri)
+
+
 def rule_range_form(ctx, which, units=None):
     """returned ApproxPos is {P, SUB(P,E), ADD(P,E,n)} (or a guarded empty range for Bucketing's early exits)"""
     obs = []
@@ -174,11 +211,15 @@ def rule_range_form(ctx, which, units=None):
         keyname = f.params[0]['name']
         for r in rets:
             tri = _ret_triple(f, r)
-            if not tri:
-                obs.append(Ob('RANGE-FORM', f, r, 'return {pos, lo, hi}', 'return value is not a three-field aggregate', UNDECIDED, arm='ret'))
-                continue
-            A, B, C = (norm_tparams(expand_calls(f.unit, f.term(x, inline=True))) for x in tri)
-            if not stable_inline(f, r):
+            if tri:
+                A, B, C = (norm_tparams(expand_calls(f.unit, f.term(x, inline=True))) for x in tri)
+            else:
+                via = _ret_triple_via_closure(f, r)
+                if not via:
+                    obs.append(Ob('RANGE-FORM', f, r, 'return {pos, lo, hi}', 'return value is not a three-field aggregate', UNDECIDED, arm='ret'))
+                    continue
+                A, B, C = (norm_tparams(expand_calls(f.unit, x)) for x in via)
+            if tri and not stable_inline(f, r):
                 obs.append(Ob('RANGE-FORM', f, r, 'lo/hi computed from the returned pos', 'pos is modified between the computation of lo/hi and the return', VIOLATED, arm='ret'))
                 continue
             if A == B == C:
@@ -200,16 +241,74 @@ def rule_range_form(ctx, which, units=None):
                                 return True
                     return False
                 K = ('param', keyname)
+                LK = ('field', 'last_key', THIS)
                 if A == ('lit', 0):
                     ok = has({('<', K, FIRST_KEY), ('>', FIRST_KEY, K)}, None)
                     req = '{0,0,0} only under key < first_key'
                 elif A == N_FIELD:
-                    LK = ('field', 'last_key', THIS)
                     ok = has({('>', K, LK), ('<', LK, K)}, None)
                     req = '{n,n,n} only under key > last_key'
                 else:
                     ok = False
                     req = 'an empty range only at 0 (below the first key) or n (above the last key)'
+                if not ok:
+                    # decide it semantically over the two atoms a = (key < first_key), b = (key > last_key): on every assignment the
+                    # path condition admits, the value is 0 when a holds and n when b holds, and (not a, not b) is excluded
+                    def atom(t):
+                        t = _orient(unwrap_expect(_strip_cast(t)))
+                        if t in (('op', '<', K, FIRST_KEY),):
+                            return 'a'
+                        if t in (('op', '>', K, LK),):
+                            return 'b'
+                        return None
+
+                    def ev(t, env):
+                        t = unwrap_expect(_strip_cast(t))
+                        at = atom(t)
+                        if at:
+                            return env[at]
+                        if t[0] == 'un' and t[1] == '!':
+                            v = ev(t[2], env)
+                            return None if v is None else (not v)
+                        if t[0] == 'op' and len(t) == 4 and t[1] in ('&&', '||'):
+                            x, y = ev(t[2], env), ev(t[3], env)
+                            if x is None or y is None:
+                                return None
+                            return (x and y) if t[1] == '&&' else (x or y)
+                        return None
+
+                    def val(t, env):
+                        t = _strip_cast(t)
+                        if t == ('lit', 0):
+                            return 0
+                        if t == N_FIELD:
+                            return 'n'
+                        if t[0] == 'cond' and len(t) == 4:
+                            c_ = ev(t[1], env)
+                            return None if c_ is None else val(t[2] if c_ else t[3], env)
+                        return None
+                    verdict = True
+                    for env in ({'a': True, 'b': False}, {'a': False, 'b': True}, {'a': False, 'b': False}):
+                        pcs = [ev(t, env) if lab else (None if ev(t, env) is None else not ev(t, env)) for (t, lab) in conds]
+                        if any(x is None for x in pcs):
+                            verdict = None
+                            break
+                        if not all(pcs):
+                            continue
+                        v = val(A, env)
+                        if v is None:
+                            verdict = None
+                            break
+                        if (not env['a'] and not env['b']) or (env['a'] and v != 0) or (env['b'] and v != 'n'):
+                            verdict = False
+                            break
+                    if verdict is True:
+                        ok = True
+                        req = 'an empty range only at 0 (below the first key) or n (above the last key)'
+                    elif verdict is None:
+                        obs.append(Ob('RANGE-FORM', f, r, req, f"{{{fmt_term(A)}, ...}} guarded by " + ' & '.join(fmt_term(t) + ('' if lab else ' false') for t, lab in conds) + ' (unrecognised shape)',
+                                      UNDECIDED, arm='early-exit'))
+                        continue
                 obs.append(Ob('RANGE-FORM', f, r, req, f"{{{fmt_term(A)}, ...}} guarded by " + ' & '.join(fmt_term(t) + ('' if lab else ' false') for t, lab in conds),
                               OK if ok else VIOLATED, arm='early-exit'))
                 continue
@@ -293,6 +392,13 @@ def rule_clamp(ctx, which, units=None):
                         lo_ok = True
                     if ct == ('op', '>', K, ('field', 'last_key', THIS)) and (only_false and true_returns):
                         hi_ok = True
+                    # one merged test `key < first_key || key > last_key`: its false edge excludes both
+                    if ct[0] == 'op' and ct[1] == '||' and len(ct) == 4 and (only_false and true_returns):
+                        parts = {_orient(unwrap_expect(_strip_cast(ct[2]))), _orient(unwrap_expect(_strip_cast(ct[3])))}
+                        if ('op', '<', K, FIRST_KEY) in parts:
+                            lo_ok = True
+                        if ('op', '>', K, ('field', 'last_key', THIS)) in parts:
+                            hi_ok = True
                 st = OK if (lo_ok and hi_ok) else VIOLATED
                 obs.append(Ob('CLAMP', f, u, 'key used only after both early exits (key < first_key, key > last_key) were not taken',
                               f"use in `{fmt_term(t)[:100]}`: below-first test passed={lo_ok}, above-last test passed={hi_ok}", st, arm='guarded-use'))
